@@ -36,10 +36,12 @@ RULE = (
     "matrices (paths needing the arc->ellipse conversion are skipped and counted); X9 Text/Attdef.transform (both branches: insert, align, "
     "rotation, oblique as (cos, sin), height, width, thickness) and MText.transform (insert, direction, extrusion, char height, width); "
     "X10 rytz_axis_construction on conjugate half-diameters in the plane / in space and on arbitrary pairs, and minor_axis, vs the regenerated kernels; "
-    "X11 MLine.transform scale factor + vertices; X12 Dimension.transform on arbitrary attribute subsets; X13 2-D POLYLINE (own z / elevation, widths, bulges, error); X14 ConstructionEllipse.transform axes (both branches, exchange); X15 HATCH EllipseEdge / converted ArcEdge centre, major axis, ratio; X16 MINSERT row / column spacing.  non-trivial = non-default frame / non-similar or mirrored matrix / nesting depth > 1 / "
+    "X11 MLine.transform scale factor + vertices; X12 Dimension.transform on arbitrary attribute subsets; X13 2-D POLYLINE (own z / elevation, widths, bulges, error); X14 ConstructionEllipse.transform axes (both branches, exchange); X15 HATCH EllipseEdge / converted ArcEdge centre, major axis, ratio; X16 MINSERT row / column spacing; X17 translate() fast paths of every overriding class (live-class table) on tilted extrusions vs the py2lean translations; X4 also Insert.matrix44 vs the kernel regenerated from its own body.  non-trivial = non-default frame / non-similar or mirrored matrix / nesting depth > 1 / "
     "history length > 1; distinct by hash of the request.  oracle: own WCS parametrisation before/after on the real code, see module "
     "docstring (O1 single entity x matrix x API for 28 generators incl. 8 ACIS types, O2 exact rational, O3 nested, O4 upright, O5 histories "
-    "of 2-3 matrices x every generator x transform/inplace/copies + commit of pending ACIS transformations); a failing input is keyed "
+    "of 2-3 matrices x every generator x transform/inplace/copies + commit of pending ACIS transformations, O6 the convenience interface "
+    "translate/scale/scale_uniform/rotate_axis/rotate_x/y/z of every generator and the seven ezdxf.transform module functions with genuinely tilted extrusions = transform(matrix), INSERT with "
+    "attached ATTRIBs, MINSERT multi_insert() and explode() with ATTRIBs); a failing input is keyed "
     "<cause>/<api>/<type>/<aspect>/<matrix class>/<hash> (history/<api>/<type>/<aspect>/<n>/<hash> for O5), cause derived from the INPUT "
     "and the failing aspect (e.g. plane-shear, neg-thickness, mline-scale-factor: the constellations of the 16 defects this check found, all "
     "fixed in /repo now) so that a regression is named."
@@ -48,6 +50,10 @@ TRUSTED_BASE = [
     "py2lean translator + the AST splits / wrappers in this file: transform_extrusion after OCS(), InsertCoordinateSystem.transform before "
     "from_ocs, c12_temp_add (TemporaryTransformation.add_matrix; matrix product kept as opaque M44.mul, result type patched), c12_line_edge "
     "(LineEdge.transform), c12_mline_scale (statements of MLine.transform moved into a function), ArithmeticError -> ValueError in rytz",
+    "follow-up: c12_translate_<Class> (the translate() fast path of every overriding class moved into a pure function: self.ocs() and "
+    "dxf attributes become parameters, post_transform notification dropped), c12_matrix44 (Insert.matrix44 body, statement order kept, "
+    "`if angle:` taken) translated over the CYTHON twin of Matrix44/Vec3 (explicit arithmetic for `*=`; twins equal by C10); the live-class "
+    "enumeration of overrides (conv_tables) and the AST of the DXFGraphic defaults",
     "the AST extraction of the elevation flow through DXFPolygon / BoundaryPaths / PolylinePath / EdgePath / *Edge.transform (hatch_defs): "
     "a table of recognised statement shapes, every other shape is refused",
     "the harness' own geometry (arbitrary axis algorithm, Rodrigues rotation, bulge -> arc, ellipse parametrisation, curve inclusion test)",
@@ -912,6 +918,9 @@ class EG:
 
     def ext(self, default_prob=0.25):
         r = self.r
+        if getattr(self, "force_tilt", False):  # genuinely tilted OCS only: neither default nor (0, 0, +-1)
+            n = r.choice([x for x in EXTRUSIONS if abs(x[0]) + abs(x[1]) > 0.1])
+            return list(vnorm(n))
         if r.random() < default_prob:
             return None
         n = r.choice(EXTRUSIONS)
@@ -1334,6 +1343,111 @@ def cause_of(rc, cl, aspect, exc=None):
     return "general"
 
 
+# the convenience interface of DXFGraphic: every method must act as transform(<the corresponding Matrix44>); `translate` is
+# overridden by several classes with a fast path that never builds a matrix
+CONV_API = ("translate", "scale", "scale_uniform", "rotate_axis", "rotate_x", "rotate_y", "rotate_z")
+
+
+# the module level convenience functions of ezdxf.transform (each = inplace(entities, <the corresponding Matrix44>))
+XT_API = ("xt.translate", "xt.scale", "xt.scale_uniform", "xt.axis_rotate", "xt.x_rotate", "xt.y_rotate", "xt.z_rotate")
+_XT2CONV = {"xt.translate": "translate", "xt.scale": "scale", "xt.scale_uniform": "scale_uniform", "xt.axis_rotate": "rotate_axis",
+            "xt.x_rotate": "rotate_x", "xt.y_rotate": "rotate_y", "xt.z_rotate": "rotate_z"}
+
+
+def xt_call(xt, e, api, mr):
+    from ezdxf.math import Vec3
+    f = mr[0]
+    if api == "xt.translate":
+        return xt.translate([e], Vec3(f[1], f[2], f[3]))
+    if api == "xt.scale":
+        return xt.scale([e], f[1], f[2], f[3])
+    if api == "xt.scale_uniform":
+        return xt.scale_uniform([e], f[1])
+    angle = math.atan2(f[5], f[4])
+    if api == "xt.axis_rotate":
+        return xt.axis_rotate([e], Vec3(f[1], f[2], f[3]), angle)
+    return getattr(xt, api[3:])([e], angle)
+
+
+def conv_recipe(mg, api):
+    api = _XT2CONV.get(api, api)
+    """single-factor matrix recipe (own algebra) for one call of the convenience interface"""
+    r = mg.r
+    if api == "translate":
+        return [["T"] + [r.choice([1.0, -2.5, 7.25, 100.0, -0.125, 3.0]) for _ in range(3)]]
+    if api == "scale":
+        return [r.choice([mg.Su(), mg.Sn(), mg.Mi(), mg.Sn()])]
+    if api == "scale_uniform":
+        k = r.choice([2.0, 0.5, 3.0, -1.0, -2.0])
+        return [["S", k, k, k]]
+    c, s_ = mg.cs()
+    axis = {"rotate_x": (1.0, 0.0, 0.0), "rotate_y": (0.0, 1.0, 0.0), "rotate_z": (0.0, 0.0, 1.0)}.get(api) or mg.axis()
+    return [["R", *axis, c, s_]]
+
+
+def conv_call(e, api, mr):
+    from ezdxf.math import Vec3
+    f = mr[0]
+    if api == "translate":
+        return e.translate(f[1], f[2], f[3])
+    if api == "scale":
+        return e.scale(f[1], f[2], f[3])
+    if api == "scale_uniform":
+        return e.scale_uniform(f[1])
+    angle = math.atan2(f[5], f[4])
+    if api == "rotate_axis":
+        return e.rotate_axis(Vec3(f[1], f[2], f[3]), angle)
+    return getattr(e, api)(angle)
+
+
+def run_minsert_attrib_case(world, rc, fails, stats):
+    """MINSERT with attached ATTRIBs: every grid element yielded by multi_insert() carries the attributes moved by the WCS offset
+    of its cell (the path is Insert.multi_insert -> attrib.dxf.insert += offset / Text.translate)"""
+    lay = world.layout()
+    e = build(lay, rc)
+    base = world.base_of(rc["name"])
+    rep = {"op": "minsert-attribs", "entity": rc}
+    fr = _frame(e)
+    offs = grid_cells(e)
+    stats[f"cells:{len(offs)}"] = stats.get(f"cells:{len(offs)}", 0) + 1
+
+    def fail(aspect, what):
+        fails.append((f"general/multi_insert/INSERT/{aspect}/{_hash(rep)}", f"MINSERT multi_insert() {json.dumps(rc)[:300]}: {what}", rep))
+    before = geom(e, base)
+    try:
+        cells = list(e.multi_insert())
+    except Exception as x:  # noqa
+        return fail("raises", f"{type(x).__name__}: {x}")
+    if len(cells) != len(offs):
+        return fail("structure", f"{len(cells)} grid elements, expected {len(offs)}")
+    cl = {"sim3": True, "zperp": True, "k": 1.0}
+    for k, (cell, off) in enumerate(zip(cells, offs)):
+        mt = m_translate(to_wcs(fr, off))
+        want = [map_prim(p, mt, 1.0) for p in before if p[1] != "grid" and not p[1].endswith("step")]
+        got = [p for p in geom(cell, base)]
+        d = cmp_prims(want, got)
+        if d:
+            return fail("geometry", f"grid element {k} (OCS offset {fmt(off)}): {d}")
+    # explode(): every grid element is exploded, its ATTRIBs become TEXT entities at the same place (block LEAF holds no TEXT)
+    nat = len(e.attribs)
+    try:
+        texts = [x for x in e.explode() if x.dxftype() == "TEXT"]
+    except Exception as x:  # noqa
+        return fail("explode-raises", f"{type(x).__name__}: {x}")
+    if len(texts) != nat * len(offs):
+        return fail("explode-structure", f"{len(texts)} TEXT entities from {nat} attribs x {len(offs)} grid elements")
+    for k, off in enumerate(offs):
+        mt = m_translate(to_wcs(fr, off))
+        for j in range(nat):
+            pre = f"attrib{j}."
+            want = [map_prim((p[0], p[1][len(pre):]) + tuple(p[2:]), mt, 1.0) for p in before if p[1].startswith(pre)]
+            out_ = []
+            _text_prims(texts[k * nat + j], out_)
+            d = cmp_prims(want, out_)
+            if d:
+                return fail("explode-geometry", f"TEXT of attrib {j} in grid element {k}: {d}")
+
+
 def run_entity_case(world, rc, mr, api, fails, stats):
     """one entity x one matrix x one API; appends (key, what, replay) to fails"""
     from ezdxf.math import Matrix44, NonUniformScalingError, InsertTransformationError
@@ -1378,9 +1492,12 @@ def run_entity_case(world, rc, mr, api, fails, stats):
     want_full = [map_prim(p, m, cl["k"]) for p in select(before, cl)]
     want_pieces = [map_piece(p, m) for p in pieces(before)]
     use_pieces = rc["t"] in ("HATCH", "MPOLYGON")
-    if api == "transform":
+    if api == "transform" or api in CONV_API:
         try:
-            e.transform(M)
+            if api == "transform":
+                e.transform(M)
+            else:
+                conv_call(e, api, mr)
             err = None
         except (NonUniformScalingError, InsertTransformationError) as x:
             err = type(x).__name__
@@ -1410,11 +1527,14 @@ def run_entity_case(world, rc, mr, api, fails, stats):
         if api == "inplace":
             log = xt.inplace([e], M)
             ents = list(lay)
+        elif api in XT_API:
+            log = xt_call(xt, e, api, mr)
+            ents = list(lay)
         else:
             log, ents = xt.copies([e], M)
     except Exception as x:  # noqa: both functions are documented not to raise
         return fail("raises", f"raised {type(x).__name__}: {x}", type(x).__name__)
-    if api == "inplace":
+    if api == "inplace" or api in XT_API:
         msgs = [str(x.error.name) for x in log]
     else:
         msgs = [str(x.error.name) for x in log]
@@ -1423,7 +1543,7 @@ def run_entity_case(world, rc, mr, api, fails, stats):
     if acc == "frame" and not representable:
         if "INSERT_TRANSFORMATION_ERROR" not in msgs:
             return fail("no-error", f"log {msgs} lacks INSERT_TRANSFORMATION_ERROR for a non-representable INSERT")
-        if api == "inplace" and snapshot(e) != snap:
+        if (api == "inplace" or api in XT_API) and snapshot(e) != snap:
             return fail("changed-after-error", "INSERT modified although the error was logged")
         return
     if msgs:
@@ -1996,6 +2116,33 @@ def oracle(ctx):
     for k, v in sorted(stats.items()):
         ctx.hist("O4 upright", k, v)
     _report(ctx, fails, "O4 upright")
+    # ---- O6 convenience interface (translate / scale / scale_uniform / rotate_*) == transform(<matrix>), tilted extrusions
+    fails, stats = [], {}
+    rng = ctx.rng("convenience")
+    eg, mg = EG(rng), MG(rng)
+    eg.force_tilt = True
+    world = World()
+    O6 = "O6 convenience interface = transform(matrix)"
+    for name in ENTITY_GENS:
+        for _ in range(ctx.n(8, 60)):
+            rc = _gen_entity(eg, name)
+            if name == "insert":
+                rc = eg.insert("LEAF", attribs=rng.random() < 0.7, grid=rng.random() < 0.2)
+            for api in CONV_API + XT_API:
+                mr = conv_recipe(mg, api)
+                run_entity_case(world, rc, mr, api, fails, stats)
+                ctx.count(O6, (api, _hash(rc), _hash(mr)), True, sample={"entity": json.dumps(rc)[:200], "matrix": json.dumps(mr), "api": api})
+            if world.n > 4000:
+                world = World()
+    for _ in range(ctx.n(150, 1000)):
+        rc = eg.insert("LEAF", attribs=True, grid=True)
+        run_minsert_attrib_case(world, rc, fails, stats)
+        ctx.count(O6, ("multi_insert", _hash(rc)), True)
+        if world.n > 4000:
+            world = World()
+    for k, v in sorted(stats.items()):
+        ctx.hist(O6, k, v)
+    _report(ctx, fails, O6)
     # ---- O5 histories: several transformations of one entity
     fails, stats = [], {}
     rng = ctx.rng("history")
@@ -2027,6 +2174,8 @@ def replay(ctx, rep):
         run_nested_case(rep["doc"], fails, stats, rep.get("how", "virtual"))
     elif op == "upright":
         run_upright_case(World(), rep["entity"], fails, stats)
+    elif op == "minsert-attribs":
+        run_minsert_attrib_case(World(), rep["entity"], fails, stats)
     elif op == "history":
         run_history_case(World(), rep["entity"], rep["matrices"], rep["api"], fails, stats)
     else:
@@ -2497,17 +2646,259 @@ def wcs_attr_table(read) -> str:
             f"def wcsAttrTable : List (String × String × String) :=\n  [{body}]\n\n")
 
 
+CONV_NAMES = ("translate", "scale", "scale_uniform", "rotate_axis", "rotate_x", "rotate_y", "rotate_z")
+
+
+def conv_tables():
+    """T-tab over the LIVE classes: for every registered graphical entity class and every method of the convenience interface the
+    class that defines it; returns ({(api, defining class)} without the DXFGraphic defaults, {class name: (module file, class)})"""
+    import inspect
+    from ezdxf.entities import factory
+    from ezdxf.entities.dxfgfx import DXFGraphic
+    over, where = set(), {}
+    for _, cls in sorted(factory.ENTITY_CLASSES.items()):
+        if not (isinstance(cls, type) and issubclass(cls, DXFGraphic)):
+            continue
+        for api in CONV_NAMES:
+            for k in cls.__mro__:
+                if api in k.__dict__:
+                    if k is not DXFGraphic:
+                        over.add((api, k.__name__))
+                        where[k.__name__] = (inspect.getsourcefile(k), k)
+                    break
+    return over, where
+
+
+def _split_translate(src: str, cls: str):
+    """`<cls>.translate(self, dx, dy, dz)`: the fast path is moved into a pure function `c12_translate_<cls>([ocs,] a_<attr>…, dx, dy,
+    dz)` returning the stored attributes: `self.ocs()` becomes the parameter `ocs`, `self.dxf.<attr>` / `dxf.<attr>` become the
+    parameters / results `a_<attr>`, `if dxf.hasattr(<attr>)` is taken (attribute present), the notification of attached data
+    (`post_transform`) and `return self` are dropped, `for attrib in self.attribs: attrib.translate(dx, dy, dz)` (INSERT) is recorded.
+    Every other statement shape is refused."""
+    import ast
+    from translate.py2lean import Unsupported
+    tree = ast.parse(src)
+    fn = None
+    for c in tree.body:
+        if isinstance(c, ast.ClassDef) and c.name == cls:
+            for n in c.body:
+                if isinstance(n, ast.FunctionDef) and n.name == "translate":
+                    fn = n
+    if fn is None or [a.arg for a in fn.args.args] != ["self", "dx", "dy", "dz"]:
+        raise Unsupported(f"{cls}.translate(self, dx, dy, dz) not found")
+    info = {"ocs": False, "attrs": [], "stored": [], "attribs": False}
+
+    class R(ast.NodeTransformer):
+        def visit_Attribute(self, node):
+            txt = ast.unparse(node)
+            if txt.startswith(("self.dxf.", "dxf.")) and txt.count(".") == (2 if txt.startswith("self.") else 1):
+                name = node.attr
+                if name not in info["attrs"]:
+                    info["attrs"].append(name)
+                if isinstance(node.ctx, ast.Store) and name not in info["stored"]:
+                    info["stored"].append(name)
+                return ast.copy_location(ast.Name(id="a_" + name, ctx=node.ctx), node)
+            return self.generic_visit(node)
+
+    def walk(stmts):
+        out = []
+        for st in stmts:
+            txt = ast.unparse(st)
+            if isinstance(st, ast.Expr) and isinstance(st.value, ast.Constant):
+                continue
+            if txt in ("return self", "dxf = self.dxf"):
+                continue
+            if txt == "ocs = self.ocs()":
+                info["ocs"] = True
+                continue
+            if txt == "if self.is_post_transform_required:\n    self.post_transform(Matrix44.translate(dx, dy, dz))":
+                continue
+            if txt == "for attrib in self.attribs:\n    attrib.translate(dx, dy, dz)":
+                info["attribs"] = True
+                continue
+            if isinstance(st, ast.If) and not st.orelse and isinstance(st.test, ast.Call) and ast.unparse(st.test.func) in ("dxf.hasattr", "self.dxf.hasattr"):
+                out += walk(st.body)
+                continue
+            if isinstance(st, ast.Assign):
+                out.append(R().visit(st))
+                continue
+            raise Unsupported(f"{cls}.translate: statement `{txt}` is outside the recognised shapes")
+        return out
+
+    body = walk(fn.body)
+    if not info["stored"]:
+        raise Unsupported(f"{cls}.translate stores nothing")
+    params = (["ocs"] if info["ocs"] else []) + ["a_" + a for a in info["attrs"]] + ["dx", "dy", "dz"]
+    ret = ", ".join("a_" + a for a in info["stored"])
+    new = ast.parse(f"def c12_translate_{cls}({', '.join(params)}):\n    pass\n").body[0]
+    new.body = body + [ast.parse(f"return ({ret},)" if len(info["stored"]) > 1 else f"return {ret}").body[0]]
+    ast.fix_missing_locations(new)
+    return src + "\n\n" + ast.unparse(new) + "\n", info
+
+
+TRANSLATE_EXPECTED = ["Circle", "Ellipse", "Insert", "Line", "Point", "Text", "XLine"]
+
+
+def conv_defs(read):
+    """(LeanDefs, extra Lean text, info per class) for the convenience interface: Matrix44.translate, the translated fast paths
+    of every class that overrides translate(), the override table of the live classes and the defaults of DXFGraphic"""
+    import ast
+    from translate.py2lean import Program, translate, Unsupported
+    over, where = conv_tables()
+    repo_src = os.path.join(os.environ.get("VERIF_REPO", "/repo"), "")
+    infos = {}
+
+    def rel(path):
+        path = os.path.realpath(path)
+        root = os.path.realpath(repo_src)
+        if not path.startswith(root):
+            raise Unsupported(f"class source {path} is outside {root}")
+        return path[len(root):].lstrip("/")
+
+    other = sorted(o for o in over if o[0] != "translate")
+    defs = []
+    for api, cls in sorted(over):
+        if api != "translate":
+            continue
+        path = rel(where[cls][0])
+        mark = f"#c12-translate-{cls}"
+
+        def rd(r_, path=path, mark=mark, cls=cls):
+            if r_.endswith(mark):
+                text, info = _split_translate(read(r_[: -len(mark)]), cls)
+                infos[cls] = info
+                return text
+            return read(r_)
+
+        prog = Program(rd)
+        prog.link("ezdxf.math", KSRC)
+        prog.link("ezdxf.math.transformtools", [TT])
+        rd(path + mark)  # fills infos[cls]
+        info = infos[cls]
+        ps = ([("ocs", ("obj", "OCS", {"transform": "bool", "matrix": "m44"}))] if info["ocs"] else [])
+        ps += [("a_" + a, "v3", a + "_" if a in ("end", "from", "at", "do") else a) for a in info["attrs"]] + [("dx", "rat"), ("dy", "rat"), ("dz", "rat")]
+        defs.append(translate(prog, path + mark, f"c12_translate_{cls}", ps, lean_name=f"translate{cls}"))
+    prog = Program(read)
+    prog.link("ezdxf.math", KSRC)
+    defs.append(translate(prog, KSRC[1], "Matrix44.translate", [("dx", "rat"), ("dy", "rat"), ("dz", "rat")], lean_name="m44Translate"))
+    # defaults of DXFGraphic
+    gfx = ast.parse(read("src/ezdxf/entities/dxfgfx.py"))
+    dflt = []
+    for c in gfx.body:
+        if isinstance(c, ast.ClassDef) and c.name == "DXFGraphic":
+            for n in c.body:
+                if isinstance(n, ast.FunctionDef) and n.name in CONV_NAMES:
+                    body = [st for st in n.body if not (isinstance(st, ast.Expr) and isinstance(st.value, ast.Constant))]
+                    if (len(body) != 1 or not isinstance(body[0], ast.Return) or not isinstance(body[0].value, ast.Call)
+                            or ast.unparse(body[0].value.func) != "self.transform" or len(body[0].value.args) != 1):
+                        raise Unsupported(f"DXFGraphic.{n.name} is no longer `return self.transform(<matrix>)`")
+                    dflt.append((n.name, ast.unparse(body[0].value.args[0])))
+    if sorted(a for a, _ in dflt) != sorted(CONV_NAMES):
+        raise Unsupported("DXFGraphic no longer defines the whole convenience interface")
+    # module level functions of ezdxf.transform: each hands one Matrix44 factory call to _inplace
+    xtree = ast.parse(read("src/ezdxf/transform.py"))
+    xt = []
+    for n in xtree.body:
+        if isinstance(n, ast.FunctionDef) and n.name in ("translate", "scale_uniform", "scale", "x_rotate", "y_rotate", "z_rotate", "axis_rotate"):
+            calls = [c for c in ast.walk(n) if isinstance(c, ast.Call) and ast.unparse(c.func) in ("_inplace", "inplace")]
+            if len(calls) != 1 or ast.unparse(calls[0].args[0]) != "entities":
+                raise Unsupported(f"ezdxf.transform.{n.name} no longer delegates to (_)inplace(entities, <matrix>)")
+            c = calls[0]
+            mexpr = c.keywords[0].value if [k.arg for k in c.keywords] == ["m"] and len(c.args) == 1 else c.args[1] if len(c.args) == 2 and not c.keywords else None
+            if mexpr is None:
+                raise Unsupported(f"ezdxf.transform.{n.name}: unexpected call shape `{ast.unparse(c)}`")
+            xt.append((n.name, ast.unparse(mexpr)))
+    if len(xt) != 7:
+        raise Unsupported("ezdxf.transform: convenience functions changed")
+    q = json.dumps
+    text = ("/-- ezdxf.transform module functions: name and the matrix expression handed to `_inplace` (AST) -/\n"
+            "def xtDefaults : List (String × String) := [" + ", ".join(f"({q(a)}, {q(b)})" for a, b in sorted(xt)) + "]\n\n"
+            "/-- (method, defining class) for every override of the convenience interface found in the live entity classes -/\n"
+            "def convOverrides : List (String × String) := [" + ", ".join(f"({q(a)}, {q(c)})" for a, c in sorted(over)) + "]\n\n"
+            "/-- the DXFGraphic defaults: method and the matrix expression handed to `self.transform` (AST) -/\n"
+            "def convDefaults : List (String × String) := [" + ", ".join(f"({q(a)}, {q(b)})" for a, b in sorted(dflt)) + "]\n\n"
+            "/-- `Insert.translate` also translates the attached ATTRIBs by the same offset -/\n"
+            f"def insertTranslatesAttribs : Bool := {'true' if infos.get('Insert', {}).get('attribs') else 'false'}\n\n")
+    return defs, text, infos
+
+
+INSERT_PY = "src/ezdxf/entities/insert.py"
+M44MARK = "#c12-matrix44"
+PYX = ["src/ezdxf/acc/vector.pyx", "src/ezdxf/acc/matrix44.pyx"]
+
+
+def _split_matrix44(src: str) -> str:
+    """Insert.matrix44(): the body becomes `c12_matrix44(ocs, sx, sy, sz, angle, ins, base)` with the STATEMENT ORDER kept:
+    `self.ocs()`, the three scale attributes, `math.radians(dxf.rotation)`, `dxf.get('insert', NULLVEC)` and the base point of
+    `self.block()` become parameters; `if angle:` and `if block_layout is not None:` are taken (a rotation by 0 is the identity;
+    a missing block has no base point).  Any statement that still mentions self / dxf / block_layout is refused."""
+    import ast
+    from translate.py2lean import Unsupported
+    tree = ast.parse(src)
+    for c in tree.body:
+        if isinstance(c, ast.ClassDef) and c.name == "Insert":
+            for n in c.body:
+                if isinstance(n, ast.FunctionDef) and n.name == "matrix44":
+                    out = []
+                    seen = set()
+
+                    def walk(stmts):
+                        for st in stmts:
+                            t = ast.unparse(st)
+                            if isinstance(st, ast.Expr) and isinstance(st.value, ast.Constant):
+                                continue
+                            if t in ("dxf = self.dxf", "ocs = self.ocs()", "sx = dxf.xscale", "sy = dxf.yscale", "sz = dxf.zscale",
+                                     "angle = math.radians(dxf.rotation)", "block_layout = self.block()"):
+                                seen.add(t)
+                                continue
+                            if isinstance(st, ast.If) and ast.unparse(st.test) in ("angle", "block_layout is not None") and not st.orelse:
+                                walk(st.body)
+                                continue
+                            t2 = t.replace("dxf.get('insert', NULLVEC)", "ins").replace("block_layout.block.dxf.base_point", "base")
+                            if any(w in t2 for w in ("dxf", "self", "block_layout")):
+                                raise Unsupported("Insert.matrix44 changed its shape: `" + t + "`")
+                            out.extend(ast.parse(t2).body)
+
+                    walk(n.body)
+                    if len(seen) != 7:
+                        raise Unsupported("Insert.matrix44 changed its shape (attribute reads)")
+                    fn = ast.parse("def c12_matrix44(ocs, sx, sy, sz, angle, ins, base):\n    pass\n").body[0]
+                    fn.body = out
+                    ast.fix_missing_locations(fn)
+                    return src + "\n\n" + ast.unparse(fn) + "\n"
+    raise Unsupported("Insert.matrix44 not found")
+
+
+def matrix44_defs(read):
+    """Insert.matrix44 translated over the CYTHON twin of Matrix44 / Vec3 (explicit arithmetic for `m *= axis_rotate(...)`; the
+    pure-Python twin multiplies with NumPy; the twins are equal by property C10)"""
+    from translate.py2lean import Program, translate
+
+    def rd(rel):
+        return _split_matrix44(read(rel[: -len(M44MARK)])) if rel.endswith(M44MARK) else read(rel)
+
+    prog = Program(rd)
+    prog.link("ezdxf.math", PYX + [KSRC[2], KSRC[3]])
+    ocs = ("obj", "OCS", {"transform": "bool", "matrix": "m44"})
+    return [translate(prog, INSERT_PY + M44MARK, "c12_matrix44",
+                      [("ocs", ocs), ("sx", "rat"), ("sy", "rat"), ("sz", "rat"), ("angle", "angle"), ("ins", "v3"), ("base", "v3")],
+                      lean_name="insertMatrixGen")]
+
+
 def regenerate(ctx):
     from translate.py2lean import lean_file
-    defs = kernel_defs(ctx.src) + rytz_defs(ctx.src) + mline_defs(ctx.src)
+    defs = kernel_defs(ctx.src) + rytz_defs(ctx.src) + mline_defs(ctx.src) + matrix44_defs(ctx.src)
     extra = "".join(d.sqrt_wrapper() + "\n" for d in defs if d.sqrt_params)
     defs += temp_defs(ctx.src)
     hd, htext = hatch_defs(ctx.src)
     defs += hd
     htext += dimension_tables(ctx.src)
+    cdefs, ctext, _ = conv_defs(ctx.src)
+    defs += cdefs
+    htext += ctext
     htext += wcs_attr_table(ctx.src)
     ctx.write_gen("TransformKernels", lean_file("EzdxfVerif.Gen.TransformKernels", defs, extra=htext + extra),
-                  [TT] + KSRC + [TEMP, BPATH, POLYGON, ELLIPSE, MLINE, DIMENSION] + [p_ for _, p_, _ in WCS_CLASSES if p_ != MLINE])
+                  [TT] + KSRC + [TEMP, BPATH, POLYGON, ELLIPSE, MLINE, DIMENSION, INSERT_PY] + PYX + [p_ for _, p_, _ in WCS_CLASSES if p_ != MLINE])
 
 
 # ================================================================================================ correspondence
@@ -2761,6 +3152,9 @@ def corr_insert(ctx):
         req = ["imat", ocs_str(old), frs(rc["insert"]), frs(sc), frs(_cs(a["rotation"])), frs(world.base_of("LEAF"))]
         ctx.hist("X4 InsertCoordinateSystem.transform / Insert.matrix44", "imat")
         out.append(("|".join(req + [ok(mat), "1/1000000000"]), "agree", True))
+        # the same request against the kernel regenerated from Insert.matrix44 itself
+        ctx.hist("X4 InsertCoordinateSystem.transform / Insert.matrix44", "imatgen")
+        out.append(("|".join(["imatgen"] + req[1:] + [ok(mat), "1/1000000000"]), "agree", True))
     return out
 
 
@@ -3302,6 +3696,44 @@ def corr_minsert(ctx):
     return out
 
 
+def corr_translate(ctx):
+    """the translate() fast paths of every class that overrides it (found in the live classes) vs the py2lean translations, on
+    tilted extrusions; a class whose override is not covered here is reported as broken"""
+    from ezdxf.math import OCS, Vec3
+    r = ctx.rng("corr/translate")
+    eg = EG(r)
+    eg.force_tilt = True
+    world = World()
+    out = []
+    S = "X17 translate() fast paths"
+    over, _ = conv_tables()
+    gens = {"Circle": [("circle", ["center"]), ("arc", ["center"])], "Ellipse": [("ellipse", ["center"])],
+            "Insert": [("insert", ["insert"])], "Line": [("line", ["start", "end"])], "Point": [("point", ["location"])],
+            "Text": [("text", ["insert", "align_point"]), ("attdef", ["insert", "align_point"])], "XLine": [("xline", ["start"]), ("ray", ["start"])]}
+    missing = sorted(c for a, c in over if a != "translate" or c not in gens)
+    if missing:
+        raise RuntimeError(f"convenience-interface overrides without a correspondence generator: {missing}")
+    for cls, gl in sorted(gens.items()):
+        for _ in range(ctx.n(60, 400)):
+            gname, attrs = r.choice(gl)
+            rc = {"attdef": lambda: eg.text("ATTDEF"), "ray": lambda: eg.xline("RAY")}.get(gname, getattr(eg, gname, None))()
+            if cls == "Text":
+                rc["a"].setdefault("align_point", rc["a"]["insert"][:2] + [rc["a"]["insert"][2]])
+                rc["a"].setdefault("halign", 1)
+            if world.n > 3000:
+                world = World()
+            e = build(world.layout(), rc)
+            d = e.dxf
+            off = [r.choice([1.0, -2.5, 7.25, 100.0, -0.125, 3.0]) for _ in range(3)]
+            has_ocs = cls in ("Circle", "Insert", "Text")
+            o = OCS(Vec3(d.extrusion)) if has_ocs else OCS()
+            req = ["trans", cls, ocs_str(o), ";".join(frs(d.get(a)) for a in attrs), frs(off)]
+            e.translate(*off)
+            ctx.hist(S, f"{cls}:{e.dxftype()}")
+            out.append(("|".join(req + [ok(*[d.get(a) for a in attrs]), "1/1000000000"]), "agree", has_ocs))
+    return out
+
+
 def corr_temp(ctx):
     """histories of transform() calls on ACIS entities: the pending matrix of the real entity vs the model's fold"""
     from ezdxf.math import Matrix44
@@ -3343,5 +3775,5 @@ def correspond(ctx):
                        ("X10 rytz_axis_construction / minor_axis", corr_rytz), ("X11 MLINE scale factor and vertices", corr_mline),
                        ("X12 DIMENSION definition points and angles", corr_dimension), ("X13 2-D POLYLINE", corr_polyline2d),
                        ("X14 ConstructionEllipse.transform (axes)", corr_ellipse), ("X15 HATCH ellipse edge axes", corr_ellipse_edge),
-                       ("X16 MINSERT spacing", corr_minsert)):
+                       ("X16 MINSERT spacing", corr_minsert), ("X17 translate() fast paths", corr_translate)):
         ctx.correspond(stream, "C12", fn(ctx), build=DRIVER_DEPS)
